@@ -233,7 +233,7 @@ def _(data: ByteArray, offset: Nat, end_offset: Int) -> Str:
     raises(IndexError)
     # X.690 8.19.4: how the first subidentifier splits into the first two arcs
     at_stmt("@loop0", check=[decoded == oid_first_arcs(b128_val(data, old(offset), tag_cont_end(data, old(offset)), 0))])
-    loop(0, invariant=[offset <= len(data)], decreases=len(data) - offset)
+    loop(0, invariant=[offset >= 0, offset <= len(data)], decreases=len(data) - offset)
 
 
 @contract("encode_object_identifier_subidentifier", props=["C01", "C03"])
